@@ -14,7 +14,8 @@ RULE_TEXT = ("every reference-typed field of every model literal built by the co
 EXPLANATION = ("D1 every reference written by the converter is a checked lookup of the right kind (propagated with `?`), or None for optional links without a name; "
                "D2 the id stored in an element and the id stored in IdMaps derive from the same source element; D3 the parser rejects broken name references; "
                "D4 constructions, spaces and walls are converted (and their errors propagated) before the model is assembled")
-DECIDED = ["D1 references are checked lookups of the right kind", "D2 element ids and lookup ids agree", "D3 parser validations lead to an error return", "D4 conversion order / propagation"]
+DECIDED = ["D1 references are checked lookups of the right kind", "D2 element ids and lookup ids agree", "D3 parser validations lead to an error return", "D4 conversion order / propagation",
+           "D6 the model checker's bridge-length warning does not fire for what conversion writes (l = 0 or > 0); de-duplicated id lists are sorted before dedup()"]
 UNDECIDED = ["uniqueness of ids (md5 of Debug text: distinctness is a value property)", "the legacy .cte corpus"]
 ASSUMPTIONS = ["BTreeMap::get / Option / Result combinators have their documented semantics"]
 LEVEL_TEXT = ("Closure by construction: for each of the 17 reference fields of the model's reference graph (transcribed from the statement), every literal the "
